@@ -80,3 +80,71 @@ Qed.
 Example C08_example_ops_wellformed :
   Forall wf_op [ex_reg ex_A; Transfer true ex_A ex_n1 ex_B; ListName true ex_B ex_n1 (Some (ujkl, 777)); Buy true ex_C ex_n1].
 Proof. repeat constructor; cbn; discriminate. Qed.
+
+(* ---------------------------------------------------------------------------------------------
+   Tie to the code by translation + proof: the functions below are GENERATED on every run from /repo's
+   current Go source (translator/gen_gofuncs.go -> Gen/GoRnsOwn.v); the theorems say that the hand-written model the
+   property theorems above are about computes what the generated function computes, for all arguments. *)
+From Coq Require Import String.
+From JK Require Import Base.GoSem Gen.GoRnsOwn Proofs.GoTieRnsOwn.
+
+(* the three handlers that change a name's owner, generated from the current source: every refusal comes before the
+   first effect; a purchase needs a listing, a live name that is not the buyer's and whose holder is the listing's
+   creator, and pays that creator the listed price; accepting a bid and transferring need the live name's holder as
+   signer.  The model's step is the interpretation of the generated handler on the reads taken from its state *)
+Theorem C08_code_tie_BuyName :
+  forall s (sg : addr) n,
+    let sl := get_sale s (nm_full n) in
+    let w := the_name s n in
+    let price := match sl with Some x => f_price x | None => None end in
+    let cs := match price with Some p => new_coins p | None => [] end in
+    let b1 := send (bank_of s) (fst sg) rns_mod cs in
+    let b2 := match b1, sl with Some b, Some x => send b rns_mod (fst (f_owner x)) cs | _, _ => None end in
+    do_buy s sg n
+    = if ok_of (gen_BuyName true (GoTieRnsOwn.is_some sl) (GoTieRnsOwn.is_some (nm_key n)) (GoTieRnsOwn.is_some w) (height s)
+                  (match w with Some r => n_expires r | None => 0 end)
+                  (match w with Some r => addr_eqb (n_value r) sg | None => false end)
+                  (match w, sl with Some r, Some x => negb (addr_eqb (n_value r) (f_owner x)) | _, _ => false end)
+                  (GoTieRnsOwn.is_some price) (GoTieRnsOwn.is_some b1) (GoTieRnsOwn.is_some b2))
+      then match b2, nm_key n, w with
+           | Some b, Some k, Some r =>
+               Some (set_names (set_forsale (set_bank s b) (adel N.eqb (forsale s) (nm_full n)))
+                               (aset N.eqb (names s) k (with_owner_reset r sg)))
+           | _, _, _ => None
+           end
+      else None.
+Proof. exact do_buy_is_the_interpretation. Qed.
+Print Assumptions C08_code_tie_BuyName.
+
+Theorem C08_code_tie_AcceptOneBid_and_TransferName :
+  forall s (sg : addr) n (other : addr),
+    (let w := the_name s n in
+     let idx := (other, nm_full n) in
+     let bd := get_bid s idx in
+     let b1 := match bd with Some x => send (bank_of s) rns_mod (fst sg) (b_price x) | None => None end in
+     do_accept s sg n other
+     = if ok_of (gen_AcceptOneBid true (GoTieRnsOwn.is_some (nm_key n)) (GoTieRnsOwn.is_some w) (height s)
+                   (match w with Some r => n_expires r | None => 0 end)
+                   (match w with Some r => negb (addr_eqb (n_value r) (canon sg)) | None => false end)
+                   (match w with Some r => n_locked r | None => 0 end)
+                   (GoTieRnsOwn.is_some bd) true (GoTieRnsOwn.is_some b1))
+       then match b1, nm_key n, w, bd with
+            | Some b, Some k, Some r, Some x =>
+                Some (set_names (set_bids (set_bank s b) (adel bidkey_eqb (bids s) idx))
+                                (aset N.eqb (names s) k (with_owner_reset r (b_bidder x))))
+            | _, _, _, _ => None
+            end
+       else None) /\
+    (let w := the_name s n in
+     do_transfer s sg n other
+     = if ok_of (gen_TransferName true (GoTieRnsOwn.is_some (nm_key n)) (GoTieRnsOwn.is_some w) (height s)
+                   (match w with Some r => n_expires r | None => 0 end)
+                   (match w with Some r => negb (addr_eqb (n_value r) (canon sg)) | None => false end)
+                   (match w with Some r => n_locked r | None => 0 end))
+       then match nm_key n, w with
+            | Some k, Some r => Some (set_names s (aset N.eqb (names s) k (with_owner_reset r other)))
+            | _, _ => None
+            end
+       else None).
+Proof. intros s sg n other. exact (conj (do_accept_is_the_interpretation s sg n other) (do_transfer_is_the_interpretation s sg n other)). Qed.
+Print Assumptions C08_code_tie_AcceptOneBid_and_TransferName.
